@@ -219,6 +219,36 @@ pub fn run(case: &Value, ctx: &Ctx) -> Outcome {
     if !via_stdin {
         args.push(path.clone());
     }
+    // C09: the other list syntax must give the same result
+    if std::env::var("CREATE_BOTH_SYNTAX").is_ok() && !all {
+        let mut other: Vec<String> = Vec::new();
+        let mut i = 0;
+        let mut tmp = None;
+        while i < args.len() {
+            match args[i].as_str() {
+                "-s" => {
+                    let p = cli::scratch(ctx, &format!("create_{id:016x}.samples2"), case["samples_file"].as_str().unwrap().as_bytes());
+                    other.extend(["--samples-file".into(), p.clone()]);
+                    tmp = Some(p);
+                    i += 2;
+                }
+                "--samples-file" => {
+                    other.extend(["--samples".into(), case["samples_arg"].as_str().unwrap().to_string()]);
+                    i += 2;
+                }
+                _ => {
+                    other.push(args[i].clone());
+                    i += 1;
+                }
+            }
+        }
+        let oa: Vec<&str> = other.iter().map(|s| s.as_str()).collect();
+        let ro = cli::sfs(ctx, &oa, if via_stdin { Some(text.as_bytes()) } else { None });
+        check_cli(&mut out, case, &ro, &other, precision, "other-syntax", false);
+        if let Some(p) = tmp {
+            let _ = std::fs::remove_file(p);
+        }
+    }
     let verbose = id % 3 == 1;
     if verbose {
         args.insert(1, "-vv".into());
@@ -229,7 +259,7 @@ pub fn run(case: &Value, ctx: &Ctx) -> Outcome {
 
     // the same records as BCF (raw or BGZF-compressed), when the check asks for it
     let also = std::env::var("CREATE_ALSO").unwrap_or_default();
-    if also.contains("bcf") && !recs.iter().any(|r| r.bad) {
+    if also.contains("bcf") {
         {
             let raw = gen::own_bcf(&cols, &recs);
             let (label, bytes) = if id % 2 == 0 { ("bcf-raw", raw) } else { ("bcf-bgzf", gen::bgzf_chunks(&raw, 200 + (id % 1000) as usize)) };
